@@ -218,13 +218,13 @@ def plan(tier, seed):
     rng = random.Random(seed)
     cases = []
     writes = ["full", "fixed1", "fixed7", "fixed50", "fixed4096", "random", "zero-window"]
-    n = 150 if q else 6000
+    n = 150 if q else 16000
     for i in range(n):
         cases.append({"seed": seed * 100019 + i, "submitters": rng.choice([1, 1, 2, 3, 4]), "per": rng.choice([1, 2, 3, 5, 10, 30]) if not q else rng.choice([1, 2, 3, 5]),
                       "write": rng.choice(writes), "inbound": rng.choice([0, 0, 2, 5]), "strategy": rng.choice(["rr", "rw", "rw"]),
                       "p": rng.choice([0.02, 0.1, 0.3]), "role": rng.choice(["client", "server"]), "batch": rng.random() < 0.3,
                       "transport": rng.choice(["TCP", "TCP", "TCP", "SCTP"])})
-    for i in range(60 if q else 2000):
+    for i in range(60 if q else 6000):
         # inbound application answers timed to land right after a partial write
         cases.append({"seed": seed * 9973 + i, "submitters": rng.choice([1, 2, 3]), "per": rng.choice([1, 2, 3, 5]),
                       "write": rng.choice(["fixed1", "fixed7", "fixed50", "random", "zero-window"]), "inbound": 0,
